@@ -16,7 +16,6 @@ THEOREMS = [
     "Remoc.Link.relay_exact",
     "Remoc.Link.relay_complete",
     "Remoc.Link.rinvariant_step",
-<<<<<<< HEAD
     "Remoc.Link.lr_closed_classified",
     "Remoc.Link.lr_classification_exact",
     # typed channels with a local queue (M_close)
@@ -34,7 +33,6 @@ THEOREMS = [
     "Remoc.Close.oneshot_closed_classified",
     "Remoc.Close.oneshot_close_observable_at_quiescence",
     "Remoc.Close.allinv2_reachable",
-=======
     "Remoc.Link.override_keeps_sending",
     "Remoc.Link.forward_chunks_exact",
     "Remoc.Link.forward_cancelled_never_completed",
@@ -44,7 +42,6 @@ THEOREMS = [
     "Remoc.Link.fcore_step",
     "Remoc.Link.fclose_step",
     "Remoc.Link.fjoint_step",
->>>>>>> agent-forward
 ]
 RULE = ("port level, exact mode: streams of whole sends / try-sends / chunk streams with a receiver close, receiver drop, sender "
         "drop or close-then-drop at every position (also with a chunked message open), the notification delivered to the sender "
@@ -66,27 +63,26 @@ TRUSTED_BASE = [
     "M_link (close / dropReceiver / dropSender labels, the notification FIFO `back`, SendFinish in the data FIFO)",
     "credit returns deferred by a full event queue may be overtaken by a close notification: the driver reorders the model's FIFO accordingly",
     "harness world and lean/Driver/Link.lean",
-<<<<<<< HEAD
     "M_close (RemocModel/Base/Close.lean, CloseStep.lean): one mpsc/oneshot link (n sender clones, local queue, send_impl, port, back channel, recv_impl), the receiver with local clones, other links as environment; values are abstract (id, issuing clone, whether the base send of the value fails on its own); the base channel underneath is the FIFO `wire` (justified by C01/C04); select! is modelled without its bias (more schedules than the code has); after a connection failure frames in flight may still be taken; a receiver forwarded onwards a second time appears only as the environment label rNotifyErr; reserve()/Permit, try_send of mpsc and blocked local sends are not modelled",
     "lean/RemocModel/Base/CloseReplay.lean + lean/Driver/Base.lean: reconstruction of a link's schedule from the observations (number of Ok handles = number of values transmitted before send_impl learnt of the event)",
-    "the relay model forwards whole messages (`relayStart` = Sender::send of a received message); chmux::forward relays large messages chunk by chunk and forwards port requests by opening new ports: those two paths are tied to the code by the link-forward scripts (predicates) and the C05 wiring harness only",
-=======
     "M_forward (lean/RemocModel/Link/Forward.lean): the loop of chmux::forward over two M_link instances, one label per await-free block; "
     "the graceful-close override is a constant of the downstream link (Cfg.ovr) for the life time of the loop; allocator and connect answers are environment labels; "
     "recursively spawned forwarders (one pair per accepted request) are further instances of the same model",
     "a forwarder that finds upstream data and the close of its destination ready at the same time handles them in the order tokio::select! picks at random: the driver accepts both orders",
     "loss of the upstream connection alone (two connections) cannot be produced in the two-endpoint mux world: the model has the label (upLost) and the theorem, the code path is exercised by the C20 lazy-blob harness (cut at a hop during a chunk-streamed fetch)",
->>>>>>> agent-forward
 ]
 ASSUMPTIONS = ["single-threaded paused runtime"]
 LEVEL_TEXT = ("Lean 4 theorems over M_link for every schedule with close/drop at any position: end-of-stream is reported only "
               "after every emitted frame was consumed, hence after every completed send was obtained; C01's exactness and "
               "completeness hold regardless of close/drop; ReceiveClose closes the sender gracefully, ReceiveFinish non-gracefully, "
-<<<<<<< HEAD
-              "the first wins; once closed no credits can be obtained and pending/later operations fail. Across a port forwarder "
-              "(chmux::forward at message granularity, composed of two M_link instances): what the forwarder completed downstream is a "
-              "prefix of what it received, the destination obtains a prefix of the origin's completed sends and all of them at quiescence. Tied to the code by exact "
-              "replay of close/drop scenarios on the model and classification/end-of-stream predicates on the real runs.")
+              "the first wins; once closed no credits can be obtained and pending/later operations fail, except that a sender with the graceful-close override keeps sending after a graceful close. Across the port forwarder "
+              "chmux::forward, modelled at chunk granularity over two M_link instances (every schedule of origin, forwarding loop and destination, any chunking, "
+              "cancels at every await, closes/drops on either link, loss of either connection in any phase): the messages the forwarder completed downstream are byte-exactly a prefix of the ideal reassembly "
+              "of the upstream frames it consumed and equal to it between two messages; a cancelled or failed upstream chunk stream completes nothing downstream; the destination obtains a prefix of the origin's completed "
+              "sends and all of them at quiescence; Ok is returned only at upstream end-of-stream with everything relayed; the destination sees end-of-stream only after the forwarder returned; the upstream receiver is closed only "
+              "after the downstream sender learned of a close, the Closed branch is enabled whenever the forwarder is between two messages, ForwardError::Send only after a non-graceful close or loss of the downstream connection, "
+              "ForwardError::Recv only after loss of the upstream connection or an over-long port batch. (The message-granular relay model and its three theorems are kept.) Tied to the code by exact "
+              "replay of close/drop and forwarder scenarios on the models and classification/end-of-stream/forwarding predicates on the real runs.")
 LEVEL_TEXT += (" Queued typed channels (rch::mpsc incl. several sender clones local and remote, rch::oneshot) have their own LTS "
                "M_close; for every schedule: the values accepted on a link are the resolved ones, the one in transmission and the "
                "queued ones in this order, resolved results never show Dropped before Ok/send error, exactly the transmitted ones "
@@ -107,19 +103,8 @@ LEVEL_NOTE = ("Typed channels: mpsc/oneshot by theorems over M_close tied to the
               "closed and then dropped while recv_impl is blocked behind a full queue is reported as Dropped; the error returned "
               "by send() on a local clone after the receiver was dropped is SendError::Closed. 'Eventually observable' assumes a "
               "healthy transport and scheduler fairness.")
-=======
-              "the first wins; once closed no credits can be obtained and pending/later operations fail, except that a sender with the graceful-close override keeps sending after a graceful close. Across the port forwarder "
-              "chmux::forward, modelled at chunk granularity over two M_link instances (every schedule of origin, forwarding loop and destination, any chunking, "
-              "cancels at every await, closes/drops on either link, loss of either connection in any phase): the messages the forwarder completed downstream are byte-exactly a prefix of the ideal reassembly "
-              "of the upstream frames it consumed and equal to it between two messages; a cancelled or failed upstream chunk stream completes nothing downstream; the destination obtains a prefix of the origin's completed "
-              "sends and all of them at quiescence; Ok is returned only at upstream end-of-stream with everything relayed; the destination sees end-of-stream only after the forwarder returned; the upstream receiver is closed only "
-              "after the downstream sender learned of a close, the Closed branch is enabled whenever the forwarder is between two messages, ForwardError::Send only after a non-graceful close or loss of the downstream connection, "
-              "ForwardError::Recv only after loss of the upstream connection or an over-long port batch. (The message-granular relay model and its three theorems are kept.) Tied to the code by exact "
-              "replay of close/drop and forwarder scenarios on the models and classification/end-of-stream/forwarding predicates on the real runs.")
-LEVEL_NOTE = ("Typed channels are covered by correspondence runs only (no theorems); 'eventually observable' assumes a healthy "
-              "transport and scheduler fairness. After an error return of chmux::forward the forwarding task drops its sender and the destination sees a clean "
-              "end-of-stream (model run fwdLostRun; for bin channels this is finding FB3): forward_eos_after_all (3) is stated for the Ok return only.")
->>>>>>> agent-forward
+LEVEL_NOTE += (" After an error return of chmux::forward the forwarding task drops its sender and the destination sees a clean "
+               "end-of-stream (model run fwdLostRun; for bin channels this is finding FB3): forward_eos_after_all (3) is stated for the Ok return only.")
 TECHNIQUE = "Lean 4 invariant proofs over an LTS model + exact trace replay and close/drop predicates against the real crate"
 DESIGN_REF = "DESIGN.md section 5, C11"
 
